@@ -1,6 +1,6 @@
 """Record-level rules: definite initialisation, copy/move constructor coverage, layout, statics, externals."""
 from . import ir
-from .common import rel
+from .common import rel, AnalysisBroken
 
 # records that are outside the instance's object graph and never constructed by the library
 EXEMPT_RECORDS = {
@@ -415,4 +415,44 @@ def source_untouched(run, rule, F, E):
         run.ob(rule, '%s %s writes only the object it initialises (its source is left as it was)' % (short(fn.tkey or fn.cls), kind), not ws, where=fn.pat,
                detail=['.'.join(map(str, p)) for p in ws[:4]] or None,
                key='%s %s modifies its source' % (short(fn.tkey or fn.cls), kind))
+    return n
+
+
+def views_by_reference(run, rule, F, tkeys, what):
+    """a view class (a control over the machine core, a stream over a caller's buffer) must *alias* the object it is constructed on: the
+    member its constructor binds parameter 0 to is a reference (or a pointer initialised with the parameter's address) and the parameter
+    is taken by reference. A member that is a by-value copy makes the view work on a private snapshot."""
+    n = 0
+    for tk in tkeys:
+        for ctor in F.find(tk):
+            if ctor.kind != 'ctor' or ctor.d.get('ctorkind') in ('copy', 'move') or not ctor.params or ctor.d.get('implicit'):
+                continue
+            rec = F.rec_by_name.get(ctor.cls) or {}
+            fields = {f.get('n'): f for f in rec.get('fields', [])}
+            p0 = ctor.params[0]
+            bound = []
+            for i in ctor.inits:
+                if i['t'] != 'member' or i.get('e') is None:
+                    continue
+                x = ir.strip(i['e'])
+                if x['k'] == 'init' and len(x.get('es', [])) == 1:
+                    x = ir.strip(x['es'][0])
+                f = fields.get(i['name'], {})
+                if x['k'] == 'var' and x.get('vk') == 'param' and x.get('pi') == 0:
+                    bound.append((i['name'], bool(f.get('ref'))))
+                elif x['k'] == 'ctor' and (x.get('copy') or x.get('move')) and len(x.get('args', [])) == 1:
+                    y = ir.strip(x['args'][0])
+                    if y['k'] == 'var' and y.get('vk') == 'param' and y.get('pi') == 0:
+                        bound.append((i['name'], False))
+                elif x['k'] == 'un' and x['op'] == '&':
+                    y = ir.strip(x['e'])
+                    if y['k'] == 'var' and y.get('vk') == 'param' and y.get('pi') == 0:
+                        bound.append((i['name'], '*' in (f.get('ty') or '*')))
+            if not bound:
+                raise AnalysisBroken('cannot tell what %s binds its first parameter to' % ctor.short)
+            ok = all(r for _, r in bound) and '&' in (p0.get('ty') or '')
+            n += 1
+            run.ob(rule, '%s views %s through a reference (member %s)' % (short(tk), what, ', '.join(m for m, _ in bound)), ok, where=ctor.pat,
+                   detail={'members': bound, 'parameter type': (p0.get('ty') or '')[-30:]},
+                   key='%s holds a copy of %s instead of a reference to it' % (short(tk), what))
     return n
